@@ -347,6 +347,15 @@ let check_table (t : table) (max_pairs : int) =
                  (history !nodes !count idx None) (String.concat " " (List.map label_str path))
                  (evs_str x.evs) (irep_str x.rep) (evs_str y.evs) (irep_str y.rep))
         end) rest_nodes;
+    if t.id mod 97 = 0 && !count > 1 then begin
+      (* a written-out case for the evidence file: the deepest product node's history *)
+      let idx = !count - 1 in
+      let p = !nodes.(idx) in
+      Printf.printf "SAMPLE layout{%s} history{%s} held_on_output{%s} physically_held{%s}\n"
+        (String.concat " ; " t.layout_lines) (history !nodes !count idx None)
+        (String.concat "," (List.map string_of_int (sorted_ints p.held_i)))
+        (String.concat "," (List.map string_of_int (sorted_ints p.phys)))
+    end;
     (findings, !count, !edges_checked, !fired_edges)
   end
 
